@@ -89,7 +89,59 @@ static void scenario(int mode, int d0, int d1, int cancel_who, bool destroy_earl
     }
 }
 
+// start(awaitable) blocks this thread as the scheduler's thread until the awaitable is resolved - here by another thread - and
+// hands the result over: the complete value (or the exception), with a sleep registered meanwhile served on the way or left pending
+static void start_remote_scenario(int kind, bool with_sleep) {
+    int64_t *s = vrt_scratch();
+    {
+        cocls::scheduler sch;
+        if (kind == 2) {
+            cocls::future<void> f;
+            cocls::promise<void> p = f.get_promise();
+            vstd::thread rt([&] {
+                vrt_label("resolver");
+                p();
+            });
+            if (with_sleep) sleeper(sch, 0, 5).detach();
+            vrt_label("main-start");
+            sch.start(f);
+            vrt_label("main");
+            rt.join();
+            s[30] = 1;
+        } else {
+            cocls::future<Counted> f;
+            cocls::promise<Counted> p = f.get_promise();
+            vstd::thread rt([&] {
+                vrt_label("resolver");
+                if (kind == 0)
+                    p(Counted(42));
+                else
+                    p(std::make_exception_ptr(TestError(77)));
+            });
+            if (with_sleep) sleeper(sch, 0, 5).detach();
+            vrt_label("main-start");
+            try {
+                Counted c = sch.start(f);
+                VRT_CHECK(kind == 0, "sched/start-result", "start(future) returned a value although the future was resolved with an exception");
+                VRT_CHECK(c.ok() && c.a == 42, "sched/start-result", "start(future) returned an incomplete or wrong value (a=%ld, checksum %s)", c.a, c.ok() ? "ok" : "broken");
+            } catch (const TestError &e) {
+                VRT_CHECK(kind == 1 && e.code == 77, "sched/start-result", "start(future) threw although the future was resolved with a value");
+            }
+            vrt_label("main");
+            rt.join();
+            s[30] = 1;
+        }
+        // the sleep (if any) is cancelled by the scheduler's destructor unless it was served before start() returned
+    }
+    if (with_sleep) VRT_CHECK(s[S_WOKE] + s[S_CANC] == 1, "sched/exactly-once", "the sleep registered before start(): %ld wake-ups and %ld cancellations", (long)s[S_WOKE], (long)s[S_CANC]);
+    VRT_CHECK(Counted::live() == 0, "sched/value-lifetime", "%ld result values alive at the end", (long)Counted::live());
+    vrt_outcome("woke=%ld", (long)s[S_WOKE]);
+}
+
 VRT_REGISTER(reg_sched) {
+    static const char *sr_names[] = {"value", "exception", "void"};
+    for (int k = 0; k < 3; k++)
+        for (int ws = 0; ws < 2; ws++) vrt::add(std::string("sch_start-remote_") + sr_names[k] + (ws ? "_with-sleep" : ""), [=] { start_remote_scenario(k, ws != 0); });
     for (int mode = 0; mode < 2; mode++)
         for (int cw = -1; cw < 2; cw++)
             for (int de = 0; de < 2; de++)
